@@ -434,10 +434,78 @@ def rules(ctx):
                  "both kernels: %s" % a if a == b else "quso accepts on `%s`, puso on `%s`" % (a, b))
 
 
+_CONSUMERS = {'list', 'tuple', 'any', 'all', 'sum', 'min', 'max', 'sorted', 'set', 'frozenset', 'dict', 'enumerate', 'zip',
+              'map', 'filter', 'iter', 'next', 'reversed'}
+
+
+def single_consumption(ctx, rid, fn, param):
+    """An iterable argument that may be a one-shot iterator (generator, map, iter(...)) is consumed at most once on every
+    path, unless it is first rebound to a materialised copy (`p = list(p)`)."""
+    from ..cfg import cfg_of, ENTRY, EXIT
+    g = cfg_of(fn.node)
+
+    def events(node):
+        """(consumptions of param, materialised rebinding?) of one CFG node (own expressions only)."""
+        exprs = []
+        if isinstance(node, ast.For):
+            exprs = [node.iter]
+            own_iter = is_name_(node.iter, param)
+        else:
+            own_iter = False
+        if isinstance(node, (ast.If, ast.While)):
+            exprs = [node.test]
+        elif isinstance(node, ast.stmt) and not isinstance(node, (ast.For, ast.FunctionDef, ast.ClassDef, ast.Try, ast.With)):
+            exprs = [node]
+        n = 1 if own_iter else 0
+        for e in exprs:
+            for x in ast.walk(e):
+                if isinstance(x, ast.Call):
+                    nm = x.func.id if isinstance(x.func, ast.Name) else None
+                    for a in list(x.args) + [k.value for k in x.keywords]:
+                        a0 = a.value if isinstance(a, ast.Starred) else a
+                        if is_name_(a0, param) and nm not in ('isinstance', 'type', 'callable', 'id', 'hasattr', 'repr', 'str'):
+                            n += 1
+                elif isinstance(x, ast.comprehension) and is_name_(x.iter, param):
+                    n += 1
+                elif isinstance(x, ast.Compare) and any(isinstance(o, (ast.In, ast.NotIn)) for o in x.ops) \
+                        and any(is_name_(c, param) for c in x.comparators):
+                    n += 1
+        mat = isinstance(node, ast.Assign) and len(node.targets) == 1 and is_name_(node.targets[0], param) and \
+            isinstance(node.value, ast.Call) and isinstance(node.value.func, ast.Name) and \
+            node.value.func.id in ('list', 'tuple') and len(node.value.args) == 1 and is_name_(node.value.args[0], param)
+        return n, mat
+
+    def is_name_(e, nm):
+        return isinstance(e, ast.Name) and e.id == nm
+    worst, where = 0, None
+    for path in g.paths(ENTRY, (EXIT,), limit=4000):
+        cnt = 0
+        for node, lab in path:
+            if isinstance(node, str):
+                continue
+            n, mat = events(node)
+            if mat:
+                cnt = 0 if cnt == 0 else cnt + 1     # materialising after a consumption is too late
+                if cnt == 0:
+                    break
+                continue
+            cnt += n
+            if cnt > worst:
+                worst, where = cnt, node
+    ok = worst <= 1
+    ctx.inst(rid, fn, where if (where is not None and not ok) else 'uses of %s in %s' % (param, fn.name), ok,
+             "`%s` is consumed at most once on every path" % param if ok else
+             "`%s` is iterated %d times on one path: a schedule given as a generator / iterator is exhausted by the first pass, "
+             "the anneal then runs with an empty schedule" % (param, worst))
+
+
 def schedule_rules(ctx, rid):
     P = ctx.prog
     from ..cfg import cfg_of
     from ..astutil import compare_atoms
+    single_consumption(ctx, rid, P.func('_anneal._create_spin_schedule'), 'schedule')
+    for nm in ('anneal_quso', 'anneal_puso', 'anneal_qubo', 'anneal_pubo'):
+        single_consumption(ctx, rid, P.func('_anneal.%s' % nm), 'schedule')
     fn = P.func('_anneal._create_spin_schedule')
     g = cfg_of(fn.node)
     tr = 'temperature_range'
